@@ -566,6 +566,11 @@ func handleOne(rq wproto.Req, alone bool) (rp wproto.Rep) {
 					}
 				case "massive-output":
 					gtree.OutputFromRoot(io.Discard, root, gtree.WithMassive(context.Background()))
+				case "dry-color":
+					// a dry run with colours on (a program on a terminal), then the operation under test on the same tree
+					color.NoColor = false
+					gtree.OutputFromRoot(io.Discard, root, gtree.WithDryRun())
+					color.NoColor = true
 				case "mkdir-elsewhere":
 					if tmp, err := os.MkdirTemp("", "verif-premk-"); err == nil {
 						gtree.MkdirFromRoot(root, gtree.WithTargetDir(tmp))
